@@ -58,10 +58,17 @@ def _cond(c):
     return f'tv("{c}")'
 
 
+_WSCALE = [1]     # weights are printed divided by this power of two (set by to_scenic from the case's wscale)
+
+
+def _w(w):
+    return str(w) if _WSCALE[0] == 1 else repr(w / _WSCALE[0])
+
+
 def _items(items, name):
-    if all(w == 1 for _d, w in items):
+    if all(w == 1 for _d, w in items) and _WSCALE[0] == 1:
         return ", ".join(f"{name(d)}()" for d, _w in items)
-    return "{" + ", ".join(f"{name(d)}(): {w}" for d, w in items) + "}"
+    return "{" + ", ".join(f"{name(d)}(): {_w(w)}" for d, w in items) + "}"
 
 
 def _block(stmts, ind, name, ismon):
@@ -108,6 +115,8 @@ def _block(stmts, ind, name, ismon):
             out.append(f"{pad}do shuffle {_items(s[1], name)}")
         elif k == "rand":
             out.append(f'{pad}rnd("{s[3]}", DiscreteRange({s[1]}, {s[2]}))')
+        elif k == "disc":
+            out.append(f'{pad}rnd("{s[2]}", Discrete({{' + ", ".join(f"{v}: {_w(w)}" for v, w in s[1]) + "}))")
         elif k == "try":
             out.append(f"{pad}try:")
             out += _block(s[1], ind + 1, name, ismon)
@@ -152,6 +161,8 @@ def _pick_sites(stmts):
             n, alt = n + len(s[1]) - 1, max(alt, len(s[1]))
         elif k == "rand":
             n, alt = n + 1, max(alt, s[2] - s[1] + 1)
+        elif k == "disc":
+            n, alt = n + 1, max(alt, len(s[1]))
         elif k == "if":
             for b in (s[2], s[3]):
                 m, a = _pick_sites(b)
@@ -235,6 +246,7 @@ def _setup_lines(sd, name):
 
 def to_scenic(case):
     normalize(case)
+    _WSCALE[0] = case.get("wscale", 1)
     sdefs = case["sdefs"]
     monset = set(m for sd in sdefs for m in sd["monitors"])
     name = lambda d: ("M" if d in monset else "D") + str(d)
